@@ -207,13 +207,23 @@ func c10Exercise(db *database.Database, q string, o database.SearchOptions) (per
 	db.SearchUniversal(q, o)
 	db.Search(q, o.Limit)
 	db.SearchWithPipelineOptions(q, o)
+	// the older entry points are still exported: "every search entry point"
+	db.SearchWithOptions(q, o)
+	db.SearchWithFuzzy(q, o)
+	db.SearchWithNLP(q, o)
+	nlpOn := o
+	nlpOn.UseNLP = true
+	db.SearchWithNLP(q, nlpOn)
 	c := database.NewCachedDatabase(db)
 	c.SearchWithOptionsAndCache(q, o)
 	c.SearchWithOptionsAndCache(q, o)
 	c.SearchWithCache(q, o.Limit)
+	c.SearchWithPipelineOptionsAndCache(q, o)
+	c.SearchWithFuzzyAndCache(q, o)
 	m := database.NewMonitoredDatabase(db)
 	m.SearchWithOptionsAndMonitoring(q, o)
 	m.SearchWithMonitoring(q, o.Limit)
+	m.ProfileSearchMemory(q)
 	db.GetSuggestions(q, o.Limit)
 	saved := os.Stdout
 	os.Stdout = devNull
